@@ -231,6 +231,13 @@ CLAIMS = {
             "the edit scripts and the matching of changed interfaces (runtime); the same set of changed interfaces in "
             "both directions",
             "§8.6 (added after the design: C11 was first declared not applicable)"),
+    "C29": ("who-feeds rule + twin stores + correlated-branch must-pass-through in abicompat, and a shape rule on the "
+            "keep-list filter of corpus::exported_decls_builder",
+            "the libraries' keep-lists are fed only from the application's undefined symbols, for both library versions "
+            "alike, and applied (maybe_drop_some_exported_decls) on every feasible path before compute_diff; an empty "
+            "keep-list must not mean `keep everything` (it does, for both kinds: two recorded, replayed findings)",
+            "which interfaces the undefined symbols resolve to; weak mode's type comparison (runtime)",
+            "§8.6 (added after the design: C29 was first declared not applicable)"),
     "C13": ("control-dependence rule over the stores into the atoms of corpus_diff::has_incompatible_changes",
             "no counter that decides the INCOMPATIBLE bit is computed under the report-mode dependent filter "
             "diff::is_filtered_out(); two atoms are (recorded, replayed findings: a vtable change that the default mode "
@@ -289,7 +296,6 @@ NOT_APPLICABLE = {
     "C18": "oracle is readelf on runtime data; the enum/string vocabulary part is decided under C02",
     "C20": "canonicalisation vs structural equality needs the runtime type graphs",
     "C26": "set relation over runtime artifacts (types by declaration location)",
-    "C29": "set relation over runtime artifacts (undefined symbols of the application)",
     "C35": "generic memory safety / UB of 120 kLOC has no repo-specific structural rule; sanitizers are a dynamic technique",
     "C43": "debug-info format independence: runtime values decoded by elfutils",
 }
